@@ -40,6 +40,7 @@ u8* _ZNSt8__detail20_Node_const_iteratorISt4pairIKSt17basic_string_viewIcSt11cha
 /* ------------------------------------------------------------------ shared_ptr */
 u8* _ZNKSt19__shared_ptr_accessIN8Pistache4Rest15SegmentTreeNodeELN9__gnu_cxx12_Lock_policyE2ELb0ELb0EEptEv(u8* sp) { return *(u8**)sp; }
 u8 _ZStneIN8Pistache4Rest15SegmentTreeNodeEEbRKSt10shared_ptrIT_EDn(u8* sp, u8* n) { (void)n; return *(u8**)sp != 0; }
+u8 _ZSteqIN8Pistache4Rest15SegmentTreeNodeEEbRKSt10shared_ptrIT_EDn(u8* sp, u8* n) { (void)n; return *(u8**)sp == 0; }
 void _ZNSt10shared_ptrIN8Pistache4Rest5RouteEEC2ERKS3_(u8* d, u8* s) { *(u8**)d = *(u8**)s; *(u8**)(d + 8) = 0; }
 void _ZNSt10shared_ptrIN8Pistache4Rest5RouteEEC2EDn(u8* d, u8* n) { (void)n; *(u8**)d = 0; *(u8**)(d + 8) = 0; }
 u8* _ZNSt10shared_ptrIN8Pistache4Rest5RouteEEaSEOS3_(u8* d, u8* s) { *(u8**)d = *(u8**)s; *(u8**)s = 0; return d; }
